@@ -26,7 +26,7 @@ PROP = "C18"
 RULE = (
     "each run draws a scenario (in-process shared writer / cluster-coordinated writer copies with fake distributed Variable+Lock, prepared or "
     "unprepared variable, optional second object / file sink with shared and pickled copies and four parts-directory placements / limit "
-    "configurations), 2-4 threads with their part lists and sizes, a finaliser, and a thread-scheduling policy; threads are pre-empted before "
+    "configurations / the same object uploaded twice back to back through one cluster, the first upload's Variable.delete() possibly still in flight), 2-4 threads with their part lists and sizes, a finaliser, and a thread-scheduling policy; threads are pre-empted before "
     "every source line of _s3.py / _mpu_fs.py and at every S3 / Variable / Lock call. Non-trivial: at least two threads ran and at least one "
     "context switch happened inside the operation. Distinct: (scenario configuration, sequence of conflict events with thread identities)."
 )
@@ -37,10 +37,11 @@ COMPONENTS_REAL = [
     "pickle round trips of writers (worker copies)",
 ]
 COMPONENTS_STUB = ["S3 service (FakeS3)", "distributed.get_client / Variable / Lock (fakes with the installed signatures)", "wall clock (virtual time for Variable.get timeouts)", "thread scheduler (ThreadSim baton kernel)"]
-HAZARD_PROBES = []
+HAZARD_PROBES = ["stale_delete_disturbed_second_upload"]
 ASSUMPTIONS = [
     "S3 errors, lock-lease expiry, disk errors and torn writes are not injected: the statement makes no promise about them",
     "finalise runs after every write has returned (the multi-part protocol guarantees it)",
+    "re-upload scenario: a Variable.delete() of an earlier upload that is delivered while a later upload of the same object is under way (message-delay fault) is outside the statement; what it does is counted as hazard probe stale_delete_disturbed_second_upload, never reported",
     "fake distributed primitives mirror the installed signatures; fidelity rests on selftest-conformance",
 ]
 STEP_BUDGET = 20000
@@ -56,7 +57,7 @@ def _trace_files() -> Tuple[str, ...]:
 # generation
 # --------------------------------------------------------------------------------------
 def generate(rng: random.Random, tier: str) -> dict:
-    scen = rng.choice(["inproc"] * 3 + ["cluster"] * 4 + ["sink"] * 4 + ["limits"])
+    scen = rng.choice(["inproc"] * 3 + ["cluster"] * 4 + ["sink"] * 4 + ["limits"] + ["reupload"])
     policy = draw_policy(rng, groups=None, horizon=300)
     if policy["kind"] in ("lifo", "fifo"):
         policy = {"kind": "uniform"}
@@ -95,6 +96,19 @@ def generate(rng: random.Random, tier: str) -> dict:
         cfg["second_variant"] = rng.choice(["other-key", "other-bucket", "other-endpoint"])
         cfg["overlap_lifecycles"] = cfg["second_object"] and T >= 2 and rng.random() < 0.5
         wl["part_base"] = rng.choice([0, 0, 95, 9990])
+        cfg["kw"] = {}
+    elif scen == "reupload":
+        # the same object written twice through one cluster, the second upload starting the moment the first is
+        # finalised; the first upload's Variable.delete() may still be in flight (message-delay fault)
+        wl["rounds"] = []
+        p0 = 1
+        for _r in range(2):
+            T = rng.choice([2, 2, 3])
+            nparts = rng.randint(T, T + 2)
+            assign = _assign(rng, T, nparts, first=p0)
+            wl["rounds"].append({"threads": assign, "prepped": rng.random() < 0.6})
+        wl["sizes"] = {str(p): rng.choice([5, 6, 9, 20]) for r in wl["rounds"] for t in r["threads"] for p in t}
+        cfg["delete_in_flight"] = rng.random() < 0.6
         cfg["kw"] = {}
     elif scen == "sink":
         T = rng.choice([1, 2, 2, 3, 4])
@@ -179,6 +193,8 @@ def _execute(record: dict, rng: Optional[random.Random]) -> Outcome:
     log = Digest()
     if scen in ("inproc", "cluster"):
         return _exec_s3(record, ch, log)
+    if scen == "reupload":
+        return _exec_reupload(record, ch, log)
     if scen == "sink":
         return _exec_sink(record, ch, log)
     return _exec_limits(record, ch, log)
@@ -394,6 +410,143 @@ def _exec_s3(record: dict, ch: Chooser, log: Digest) -> Outcome:
     cls = (scen, str(record["workload"]), cfg.get("prepped"), cfg.get("copy_per_task"), cfg.get("second_object"), conflict)
     sample = {"config": cfg, "workload": wl, "s3_calls": [list(map(str, c)) for c in s3.calls[:30]], "cluster_events": [list(map(str, e)) for e in cluster.events[:40]], "schedule_rle_head": _rle_head(ch), "context_switches": kernel.switches, "steps": kernel.steps, "virtual_time": kernel.now}
     return Outcome(v, log.hex(), ch, stats={"probes": probes}, cls=cls, nontrivial=nthreads >= 2 and kernel.switches > 0, sample=sample, steps=kernel.steps, sim_time=kernel.now)
+
+
+def _exec_reupload(record: dict, ch: Chooser, log: Digest) -> Outcome:
+    """Two uploads of one object through one cluster, back to back.  Each upload on its own has to satisfy the
+    statement (one initiation, one upload id, no failed write).  With ``delete_in_flight`` the first upload's
+    ``Variable.delete()`` is a message the scheduler (the Chooser) delivers whenever it likes - possibly after the
+    second upload has published its id.  What a message left in flight by an EARLIER upload does to a later one is
+    outside the statement (interleavings of the workers of one upload): it is counted as a hazard probe, never
+    reported; without the fault every deviation is a violation."""
+    # pylint: disable=too-many-locals,too-many-statements
+    from odc.geo.cog import _s3 as S
+
+    cfg, wl = record["config"], record["workload"]
+    s3 = fakes.FakeS3(min_part_size=5)
+    cluster = fakes.FakeCluster()
+    kernel = K.Kernel(trace_files=_trace_files())
+    probes = {"scenario_reupload": 1, "delete_in_flight_runs": 0, "delete_delivered_during_second_upload": 0, "stale_delete_disturbed_second_upload": 0, "var_get_timeout": 0}
+    getattr(S, "_state", {}).clear()
+    fakes.install_fake_s3(s3)
+    fakes.install_distributed_fakes(cluster)
+    K.activate(kernel)
+    sizes = {int(k): v_ for k, v_ in wl["sizes"].items()}
+    client = fakes.FakeClient(cluster, "client0")
+    bucket, key = "bkt", "a/obj.tif"
+    state: Dict[str, Any] = {"round": 0, "second_started": False, "late_delivery": False}
+    if cfg.get("delete_in_flight"):
+        cluster.delete_in_flight = lambda name: ch.fault("delete_in_flight", ("delete", state["round"]), 0.85)
+        probes["delete_in_flight_runs"] = 1
+
+        def delivered(_name):
+            if state["second_started"]:
+                state["late_delivery"] = True
+
+        cluster.on_delivered = delivered
+    rounds: List[Dict[str, Any]] = []
+    v: Optional[Violation] = None
+    try:
+        try:
+
+            def start_round(ri: int) -> None:
+                rnd = wl["rounds"][ri]
+                state["round"] = ri
+                mpu = S.MultiPartUpload(bucket, key)
+                if rnd["prepped"]:
+                    cluster.default_client = client
+                    writer = mpu.writer(cfg.get("kw", {}), client=client)
+                else:
+                    cluster.default_client = None
+                    writer = mpu.writer(cfg.get("kw", {}))
+                cluster.default_client = client
+                R: Dict[str, Any] = {"sent": {}, "receipts": {}, "pending": set(), "fin": None, "first_call": len(s3.calls)}
+                rounds.append(R)
+                for ti, parts in enumerate(rnd["threads"]):
+                    name = f"W{ti}.R{ri}"
+                    w = pickle.loads(pickle.dumps(writer))
+
+                    def body(parts=parts, w=w, R=R, ri=ri):
+                        for p in parts:
+                            data = _data(p + 1000 * ri, sizes[p])
+                            R["sent"][p] = data
+                            R["receipts"][p] = w(p, data)
+                        return True
+
+                    kernel.spawn(name, body)
+                    R["pending"].add(name)
+                R["writer"] = writer
+
+            def on_done(name: str, rec: Any) -> None:
+                if rec.error is not None or name.startswith("net."):
+                    return
+                for ri, R in enumerate(rounds):
+                    if name in R["pending"]:
+                        R["pending"].discard(name)
+                        if not R["pending"]:
+                            w = pickle.loads(pickle.dumps(R["writer"]))
+
+                            def fin(R=R, w=w):
+                                R["fin"] = w.finalise([R["receipts"][p] for p in sorted(R["receipts"])])
+                                return True
+
+                            kernel.spawn(f"W9.F{ri}", fin)
+                    if name == f"W9.F{ri}" and ri == 0:
+                        state["second_started"] = True
+                        start_round(1)
+
+            start_round(0)
+            res: Dict[str, Any] = {}
+            v = _drive(kernel, ch, log, res, on_done=on_done)
+            if v is None:
+                for ri, R in enumerate(rounds):
+                    calls = s3.calls[R["first_call"] : (rounds[ri + 1]["first_call"] if ri + 1 < len(rounds) else None)]
+                    creates = [c for c in s3.calls if c[0] == "create"]
+                    mine = [c for c in calls if c[0] == "create"]
+                    if len(mine) != 1:
+                        v = Violation(PROP, "O18.1", "upload-initiated-%s-times" % ("zero" if not mine else "more-than-once"), {"round": ri, "creates": [list(map(str, c)) for c in creates]})
+                        break
+                    uid = mine[0][4]
+                    wrong = [c for c in calls if c[0] in ("part", "complete") and c[3] != uid]
+                    if wrong:
+                        v = Violation(PROP, "O18.2", "part-under-other-upload-id", {"round": ri, "upload": uid, "wrong": [list(map(str, c)) for c in wrong[:4]]})
+                        break
+                    want = b"".join(R["sent"][p] for p in sorted(R["sent"]))
+                    stored = s3.uploads[uid]["parts"]
+                    if b"".join(bytes(stored[p]) for p in sorted(stored)) != want or not isinstance(R["fin"], dict):
+                        v = Violation(PROP, "O18.5", "object-differs-from-parts", {"round": ri})
+                        break
+                if v is None and len(rounds) != 2:
+                    raise HarnessError("re-upload scenario: the second upload never started")
+        except HarnessError:
+            raise
+        except Exception as e:  # pylint: disable=broad-except
+            v = exc_to_violation(PROP, "O18.3", e, extra={"phase": "setup"})
+    finally:
+        kernel.shutdown()
+        K.activate(None)
+        fakes.uninstall_distributed_fakes()
+        fakes.uninstall_fake_s3()
+        getattr(S, "_state", {}).clear()
+    if state["late_delivery"]:
+        probes["delete_delivered_during_second_upload"] = 1
+        if v is not None:
+            # the earlier upload's delete landed while the later upload was under way: not an interleaving of the
+            # workers of one upload - counted, not reported (DESIGN 7.3, round 7)
+            probes["stale_delete_disturbed_second_upload"] = 1
+            v = None
+    probes["var_get_timeout"] = cluster.counters["var_get_timeout"]
+    ch.count("preemption", kernel.switches)
+    ch.count("timeout_fired", cluster.counters["var_get_timeout"])
+    ch.count("message_delay", int(state["late_delivery"]))
+    for c in s3.calls:
+        log.add(*c)
+    for e in cluster.events:
+        log.add(*e[:3])
+    conflict = tuple(s3.calls) + tuple((e[0], e[1], e[2]) for e in cluster.events)
+    cls = ("reupload", str(wl), cfg.get("delete_in_flight"), conflict)
+    sample = {"config": cfg, "workload": wl, "s3_calls": [list(map(str, c)) for c in s3.calls[:30]], "cluster_events": [list(map(str, e)) for e in cluster.events[:40]], "context_switches": kernel.switches, "steps": kernel.steps, "virtual_time": kernel.now}
+    return Outcome(v, log.hex(), ch, stats={"probes": probes}, cls=cls, nontrivial=kernel.switches > 0, sample=sample, steps=kernel.steps, sim_time=kernel.now)
 
 
 def _rle_head(ch: Chooser) -> List[Any]:
